@@ -54,6 +54,8 @@ struct Case {
     config: String,
     schema: String,
     expect: Option<[&'static str; 4]>,
+    /// the scalar whose aliases are compared (default: the custom scalar Sc)
+    name: &'static str,
 }
 
 fn cases() -> Vec<Case> {
@@ -89,7 +91,7 @@ fn cases() -> Vec<Case> {
                 } else {
                     format!("type Query {{ a(x: Sc, y: Other): Sc b: Other }}\n{other}{sc}")
                 };
-                v.push(Case { label: format!("config {c:?}, directive {d:?}, scalar defined {}", if position == 0 { "first" } else { "last" }), config, schema, expect: expected(c, d) });
+                v.push(Case { label: format!("config {c:?}, directive {d:?}, scalar defined {}", if position == 0 { "first" } else { "last" }), config, schema, expect: expected(c, d), name: "Sc" });
             }
         }
     }
@@ -108,7 +110,24 @@ fn cases() -> Vec<Case> {
         let config = format!(
             "schema: ./schema/*.graphql\nextensions:\n  nitrogql:\n    generate:\n      schemaOutput: ./out/schema.d.ts\n      type:\n        scalarTypes:\n          Other: OX\n{conf}"
         );
-        v.push(Case { label: format!("type expression naming schema types: {label}"), config, schema: shadow_schema.into(), expect: Some(exp) });
+        v.push(Case { label: format!("type expression naming schema types: {label}"), config, schema: shadow_schema.into(), expect: Some(exp), name: "Sc" });
+    }
+    // built-in scalars: the configuration may re-map them like any other scalar; left alone they keep their defaults
+    let builtin_schema = "type Query { a(x: ID, n: Int, s: String): ID b: Other }\nscalar Other\n";
+    let defaults: [(&str, [&'static str; 4]); 3] = [("ID", ["string | number", "string", "string", "string | number"]), ("Int", ["number", "number", "number", "number"]), ("String", ["string", "string", "string", "string"])];
+    for (name, dflt) in defaults {
+        let forms: [(&str, String, [&'static str; 4]); 4] = [
+            ("left alone", String::new(), dflt),
+            ("single", format!("          {name}: CX\n"), ["CX", "CX", "CX", "CX"]),
+            ("send / receive", format!("          {name}:\n            send: CS\n            receive: CR\n"), ["CS", "CR", "CR", "CS"]),
+            ("separate", format!("          {name}:\n            resolverOutput: CRO\n            operationInput: COI\n            resolverInput: CRI\n            operationOutput: COO\n"), ["COI", "COO", "CRI", "CRO"]),
+        ];
+        for (label, conf, exp) in forms {
+            let config = format!(
+                "schema: ./schema/*.graphql\nextensions:\n  nitrogql:\n    generate:\n      schemaOutput: ./out/schema.d.ts\n      type:\n        scalarTypes:\n          Other: OX\n{conf}"
+            );
+            v.push(Case { label: format!("built-in scalar {name}: {label}"), config, schema: builtin_schema.into(), expect: Some(exp), name });
+        }
     }
     v
 }
@@ -193,7 +212,7 @@ fn main() {
                 *per_family.entry("agreed: no TypeScript type provided, generate reports it".into()).or_default() += 1;
             }
             (None, true) => {
-                let got: Vec<String> = TARGETS.iter().map(|t| alias_in(ts.as_deref().unwrap_or(""), t, "Sc").unwrap_or_else(|| "-".into())).collect();
+                let got: Vec<String> = TARGETS.iter().map(|t| alias_in(ts.as_deref().unwrap_or(""), t, c.name).unwrap_or_else(|| "-".into())).collect();
                 failures.push((i, "a scalar without a complete TypeScript type specification is given a type".into(), input, "neither the configuration nor a complete @nitrogql_ts_type provides the four types".into(), format!("{got:?}")));
             }
             (Some(_), false) => {
@@ -201,7 +220,7 @@ fn main() {
             }
             (Some(exp), true) => {
                 let ts = ts.clone().unwrap_or_default();
-                let got: Vec<String> = TARGETS.iter().map(|t| alias_in(&ts, t, "Sc").unwrap_or_else(|| "-".into())).collect();
+                let got: Vec<String> = TARGETS.iter().map(|t| alias_in(&ts, t, c.name).unwrap_or_else(|| "-".into())).collect();
                 let other: Vec<String> = TARGETS.iter().map(|t| alias_in(&ts, t, "Other").unwrap_or_else(|| "-".into())).collect();
                 let wrong: Vec<String> = (0..4).filter(|k| got[*k] != exp[*k]).map(|k| TARGETS[k].to_string()).collect();
                 // an identifier of a configured type expression that is also a schema type must not be bound in the
